@@ -115,6 +115,16 @@ Theorem parts_reassemble_server_name s h port k :
   end.
 Proof. apply server_name_parts. Qed.
 
+(* the port is reported as a NUMBER: it is the port text p of the input that re-concatenates
+   (theorem above); host, colon and the decimal spelling of the number do so only when the port
+   text has no leading zero (known finding F101: example.org:0080 reports example.org and 80) *)
+Theorem server_name_port_number_reassembles_refuted :
+  exists s h n k, sn_parse s = Some (h, Some n, k) /\ s <> h ++ 58 :: print_dec n.
+Proof.
+  exists (bs "example.org:0080"), (bs "example.org"), 80, HDns. split; [vm_compute; reflexivity|].
+  vm_compute. discriminate.
+Qed.
+
 (* ---------------- base64 ---------------- *)
 
 (* both unpadded alphabets: decoding an encoding gives the bytes back, for every byte string *)
@@ -163,8 +173,8 @@ Qed.
 
 (* the whole table for an event of any of the three structs (eventV1 / eventV2 check the room ID
    with checkID; eventV3 demands its sigil, the create event - whose room ID is derived - apart),
-   in a version of the lenient set other than the pseudo-ID version, with a sender and room ID of
-   the right shape; the event is otherwise valid, in particular its room ID is one the room-ID
+   in a version of the lenient set other than the pseudo-ID version, with a room ID of the right
+   shape (the sender's shape is a premise of the OK and persistable rows only); the event is otherwise valid, in particular its room ID is one the room-ID
    parser accepts (since the repair of F9 an event with any other room ID is refused).
    Refused: some limit that is not lenient is exceeded, whatever else is merely too many bytes
    (before the repair of F43 this needed the extra premise that no other field exceeded only its
@@ -173,17 +183,29 @@ Theorem check_fields_table struct v json_len type sk sender room :
   ((struct =? 3) = false /\ shaped 33 room
    \/ (struct =? 3) = true /\ is_create_v3 type sk = false /\ exists r, room = 33 :: r) ->
   lenient_version v = true -> bytes_eqb v pseudo_id_version = false ->
-  shaped 64 sender -> room_valid room = true ->
+  room_valid room = true ->
   let verdict := event_checks struct v false json_len type sk sender room in
   (hard_limit_exceeded json_len type sk sender room -> verdict = VTooLarge false)
-  /\ (no_hard_limit_exceeded json_len type sk sender room ->
+  /\ (shaped 64 sender -> no_hard_limit_exceeded json_len type sk sender room ->
       byte_limit_exceeded type sk sender room -> verdict = VTooLarge true)
-  /\ (all_within_limits json_len type sk sender room -> verdict = VOk).
+  /\ (shaped 64 sender -> all_within_limits json_len type sk sender room -> verdict = VOk)
+  (* a sender that is not @...:... : refused, never persistable, whatever the sizes (repair of
+     F100: before it, a type or state key over the byte limit only made such an event persistable) *)
+  /\ (~ shaped 64 sender -> no_hard_limit_exceeded json_len type sk sender room -> verdict = VErr)
+  /\ (~ shaped 64 sender -> verdict = VErr \/ verdict = VTooLarge false).
+Proof. apply check_fields_table_gen. Qed.
+
+Example malformed_sender_is_refused_whatever_the_sizes :
+  let long := concat (repeat [195; 169] 128) in
+  event_checks 2 (bs "10") false 500 long None (bs "garbage") (bs "!r:x") = VErr
+  /\ event_checks 2 (bs "10") false 500 (bs "m.x") (Some long) (bs "@u") (bs "!r:x") = VErr
+  /\ event_checks 1 (bs "1") false 500 long None [] (bs "!r:x") = VErr
+  /\ event_checks 3 (bs "12") false 500 long None (bs "u:x") (33 :: repeat 65 43) = VErr
+  /\ event_checks 2 (bs "10") false 500 long None (bs "@u:x") (bs "!r:x") = VTooLarge true
+  /\ ~ shaped 64 (bs "garbage") /\ ~ shaped 64 (bs "@u") /\ ~ shaped 64 [] /\ ~ shaped 64 (bs "u:x").
 Proof.
-  intros H1 H2 H3 H4 H5. repeat split.
-  - apply table_refused; assumption.
-  - apply table_persistable; assumption.
-  - apply table_ok; assumption.
+  repeat split; try (vm_compute; reflexivity);
+    intros [Hc [r Hr]]; vm_compute in Hc; try discriminate; inversion Hr.
 Qed.
 
 (* the same as ONE equation against the specification of the property text (LimitsSpec: refused when
@@ -199,6 +221,11 @@ Theorem event_size_verdict_is_spec_class struct v json_len type sk sender room :
   event_checks struct v false json_len type sk sender room
   = verdict_of_class (size_class_of json_len (limited_fields type sk sender room)).
 Proof. apply event_checks_is_size_class. Qed.
+
+(* the oracle's test "the sender is a user ID" (LimitsSpec.sender_well_formed) is the shape premise
+   of check_fields_table *)
+Theorem sender_well_formed_is_shape s : sender_well_formed s = true <-> shaped 64 s.
+Proof. apply sender_well_formed_shaped. Qed.
 
 Theorem rune_count_is_code_points_on_utf8 s : wf_utf8 s = true -> rune_count s = code_points s.
 Proof. exact (rune_count_code_points s). Qed.
@@ -260,6 +287,15 @@ Example grammar_inhabited_room_id_domainless :
   RoomIdG IPv6Lit (bs "!31hneApxJ_1o-63DmFrpeqnkFfWppnzWso1JvH3ogLM").
 Proof. apply room_id_grammar_decided. vm_compute. reflexivity. Qed.
 
+(* a port has at most five digits (repair of F101) *)
+Example grammar_excludes_six_digit_port :
+  ~ ServerNameG IPv6Lit (bs "example.org:000080") /\ sn_accept (bs "example.org:000080") = false
+  /\ sn_accept (bs "[::1]:0000065535") = false /\ sn_accept (bs "example.org:00080") = true.
+Proof.
+  repeat split; try (vm_compute; reflexivity).
+  intro H. apply server_name_grammar_decided in H. vm_compute in H. discriminate.
+Qed.
+
 Example grammar_excludes_port_65536 : ~ ServerNameG IPv6Lit (bs "example.org:65536").
 Proof. intro H. apply server_name_grammar_decided in H. vm_compute in H. discriminate. Qed.
 
@@ -303,6 +339,7 @@ Print Assumptions strict_user_id_only_domain_departures.
 Print Assumptions parts_reassemble_user.
 Print Assumptions parts_reassemble_room.
 Print Assumptions parts_reassemble_server_name.
+Print Assumptions server_name_port_number_reassembles_refuted.
 Print Assumptions base64_roundtrip.
 Print Assumptions base64bytes_roundtrip.
 Print Assumptions base64bytes_reads_url_safe.
@@ -313,6 +350,7 @@ Print Assumptions check_id_table.
 Print Assumptions check_fields_table.
 Print Assumptions event_size_verdict_is_spec_class.
 Print Assumptions rune_count_is_code_points_on_utf8.
+Print Assumptions sender_well_formed_is_shape.
 Print Assumptions version_table_matches_spec.
 Print Assumptions version_table_complete.
 Print Assumptions lenient_versions_are_all_registered.
